@@ -1,10 +1,410 @@
-import DFV.Lemmas.Tab
-import DFV.Model.C11
+import DFV.Lemmas.C11Trip
+import DFV.Lemmas.C11Complex
+import DFV.Lemmas.C11Ex
+/-!
+# C11 — field FFTs are the discrete Fourier transform at the k-mesh's frequencies
+
+Property theorems only (helper lemmas and the spec-level definitions `kMesh`, `originMesh`,
+`sumBox`, `phase`, `lastShift`, `IsRoot`, `Roots`, `IsConj`, `CFInv` live in `DFV/Lemmas/C11*.lean`).
+
+Part (a) is exact arithmetic over `Rat` about the model of `Mesh.fftn` / `Mesh.ifftn`
+(`DFV/Model/C11.lean`), for every number of dimensions, every region, every mix of even, odd and
+single-cell axes.  Part (b) is about the model of `Field.fftn / ifftn / rfftn / irfftn` over an
+arbitrary commutative ring `R`; `exp(-2πi/n)` enters as a per-axis parameter `ρ : Root R` whose
+properties (`IsRoot n ρ`: `w^n = 1`, `w·wi = 1`, `ninv·n = 1`, `Σ_j w^(jk) = 0` for `0<k<n`) are
+explicit hypotheses — satisfied by `exp(-2πi/n) ∈ ℂ` for every `n ≥ 1` (`complex_roots_exist`).
+-/
 namespace DFV.C11
 open DFV
 
-/-- placeholder while the harness is brought up -/
-theorem fftfreq_length (n : Nat) (d : Rat) : (fftfreq n d).length = n := by
-  simp [fftfreq]
+/-! ## (a) the k-mesh -/
+
+/-- The shifted DFT sample frequencies of `n` samples of spacing `d`: entry `j` of
+`fftshift(fftfreq(n, d))` is `(j - ⌊n/2⌋)/(n·d)`, for every `n` (even, odd, 1). -/
+theorem fftfreq_shifted (n : Nat) (d : Rat) (j : Nat) (hj : j < n) :
+    (fftshiftL (fftfreq n d)).getD j 0 = ((j : Rat) - ((n / 2 : Nat) : Rat)) * (1 / ((n : Rat) * d)) :=
+  fftshift_fftfreq n d j hj
+
+/-- `Mesh.fftn` succeeds on every valid mesh (any dimension, any counts, any position), for
+both transform kinds, and returns a valid mesh without boundary conditions or subregions. -/
+theorem fftn_mesh (m : Mesh) (rfft : Bool) (hm : m.Inv) :
+    meshFftn m rfft = .ok (kMesh m rfft) ∧ (kMesh m rfft).Inv ∧ (kMesh m rfft).ndim = m.ndim ∧
+      (kMesh m rfft).bc = "" ∧ (kMesh m rfft).subs = [] :=
+  ⟨meshFftn_ok m rfft hm, kMesh_inv m rfft hm, kMesh_ndim m rfft, rfl, rfl⟩
+
+/-- Reciprocal names and units: dimension `d` becomes `k_d`, unit `u` becomes `(u)$^{-1}$`; the
+tolerance factor is kept. -/
+theorem kmesh_names_units (m : Mesh) (rfft : Bool) (k : Mesh) (h : meshFftn m rfft = .ok k) (hm : m.Inv) :
+    k.region.dims = m.region.dims.map (fun d => "k_" ++ d) ∧
+    k.region.units = m.region.units.map (fun u => "(" ++ u ++ ")$^{-1}$") ∧
+    k.region.tol = m.region.tol := by
+  rw [meshFftn_ok m rfft hm] at h
+  injection h with h
+  subst h
+  exact ⟨rfl, rfl, rfl⟩
+
+/-- The k-cells have size `1/(n·cell)` on every axis, for both transform kinds. -/
+theorem kcell_size (m : Mesh) (rfft : Bool) (k : Mesh) (h : meshFftn m rfft = .ok k) (hm : m.Inv)
+    (a : Nat) (ha : a < m.ndim) : k.cellAt a = 1 / ((m.nAt a : Rat) * m.cellAt a) := by
+  rw [meshFftn_ok m rfft hm] at h
+  injection h with h
+  subst h
+  exact kMesh_cellAt m rfft hm a ha
+
+/-- **k-cell centres, full transform.**  Along every axis — even, odd or single-cell — the
+k-mesh has as many cells as the mesh, and the centre of k-cell `j` is exactly entry `j` of
+`fftshift(fftfreq(n, cell))`. -/
+theorem kcell_centres (m : Mesh) (k : Mesh) (h : meshFftn m false = .ok k) (hm : m.Inv)
+    (a : Nat) (ha : a < m.ndim) :
+    k.nAt a = m.nAt a ∧
+    ∀ j, j < m.nAt a → k.centreAx a (j : Int) = (fftshiftL (fftfreq (m.nAt a) (m.cellAt a))).getD j 0 := by
+  rw [meshFftn_ok m false hm] at h
+  injection h with h
+  subst h
+  refine ⟨by rw [kMesh_nAt m false a ha, kN_full m false a (by simp)], ?_⟩
+  intro j hj
+  rw [fftshift_fftfreq _ _ j hj, kcentre_full m false hm a ha (by simp)]
+  simp only [Int.cast_natCast]
+
+/-- The same as a closed formula, for every integer index: `(j - ⌊n/2⌋)/(n·cell)`; in
+particular the zero frequency sits at index `⌊n/2⌋` and a single-cell axis is centred at 0. -/
+theorem kcell_centres_formula (m : Mesh) (k : Mesh) (h : meshFftn m false = .ok k) (hm : m.Inv)
+    (a : Nat) (ha : a < m.ndim) (j : Int) :
+    k.centreAx a j = ((j : Rat) - ((m.nAt a / 2 : Nat) : Rat)) / ((m.nAt a : Rat) * m.cellAt a) := by
+  rw [meshFftn_ok m false hm] at h
+  injection h with h
+  subst h
+  rw [kcentre_full m false hm a ha (by simp)]
+  ring
+
+/-- single-cell axes are centred at frequency 0 (repaired defect D16) -/
+theorem kcell_single_zero (m : Mesh) (k : Mesh) (h : meshFftn m false = .ok k) (hm : m.Inv)
+    (a : Nat) (ha : a < m.ndim) (h1 : m.nAt a = 1) : k.nAt a = 1 ∧ k.centreAx a 0 = 0 := by
+  refine ⟨by rw [(kcell_centres m k h hm a ha).1, h1], ?_⟩
+  rw [kcell_centres_formula m k h hm a ha 0, h1]
+  simp
+
+/-- the zero frequency is the centre of k-cell `⌊n/2⌋` on every axis -/
+theorem kcell_zero_frequency (m : Mesh) (k : Mesh) (h : meshFftn m false = .ok k) (hm : m.Inv)
+    (a : Nat) (ha : a < m.ndim) : k.centreAx a ((m.nAt a / 2 : Nat) : Int) = 0 := by
+  rw [kcell_centres_formula m k h hm a ha]
+  simp only [Int.cast_natCast, sub_self, zero_div]
+
+/-- **k-cell centres, real transform.**  The last axis has `⌊n/2⌋ + 1` cells whose centres
+are the non-negative frequencies `rfftfreq(n, cell)` (one cell centred at 0 when `n = 1`); all
+other axes are as for the full transform. -/
+theorem kcell_centres_rfft (m : Mesh) (k : Mesh) (h : meshFftn m true = .ok k) (hm : m.Inv) :
+    k.nAt (m.ndim - 1) = m.nAt (m.ndim - 1) / 2 + 1 ∧
+    (∀ j, j < m.nAt (m.ndim - 1) / 2 + 1 →
+      k.centreAx (m.ndim - 1) (j : Int)
+        = (rfftfreq (m.nAt (m.ndim - 1)) (m.cellAt (m.ndim - 1))).getD j 0) ∧
+    (∀ a, a < m.ndim - 1 → k.nAt a = m.nAt a ∧
+      ∀ j, j < m.nAt a → k.centreAx a (j : Int) = (fftshiftL (fftfreq (m.nAt a) (m.cellAt a))).getD j 0) := by
+  rw [meshFftn_ok m true hm] at h
+  injection h with h
+  subst h
+  have hl := last_lt m hm
+  refine ⟨by rw [kMesh_nAt m true _ hl, kN_half m true _ (flag_last m)], ?_, ?_⟩
+  · intro j hj
+    rw [kcentre_half m true hm _ hl (flag_last m), rfftfreq, getD_tab _ _ _ _ hj]
+    simp only [Int.cast_natCast]
+  · intro a ha
+    refine ⟨by rw [kMesh_nAt m true a (by omega), kN_full m true a (flag_notlast m a ha)], ?_⟩
+    intro j hj
+    rw [fftshift_fftfreq _ _ j hj, kcentre_full m true hm a (by omega) (flag_notlast m a ha)]
+    simp only [Int.cast_natCast]
+
+/-- The phase of the transform is `k·r`: the centre of k-cell `j` times the position `r·cell`
+of real-space cell `r`, counted from the first cell, is `(j - ⌊n/2⌋)·r / n` — so that
+`exp(-2πi k·r) = exp(-2πi/n)^((j - ⌊n/2⌋)·r)`, the factor `phase` of `fftn_is_dft`. -/
+theorem phase_is_k_dot_r (m : Mesh) (k : Mesh) (h : meshFftn m false = .ok k) (hm : m.Inv)
+    (a : Nat) (ha : a < m.ndim) (j r : Nat) :
+    k.centreAx a (j : Int) * ((r : Rat) * m.cellAt a)
+      = (((j : Rat) - ((m.nAt a / 2 : Nat) : Rat)) * (r : Rat)) / (m.nAt a : Rat) := by
+  rw [kcell_centres_formula m k h hm a ha]
+  have hn0 : (m.nAt a : Rat) ≠ 0 := ne_of_gt (nat_cast_pos' _ (hm.2.2 a ha))
+  have hd0 : m.cellAt a ≠ 0 := ne_of_gt (cell_pos m hm a ha)
+  simp only [Int.cast_natCast]
+  generalize ((m.nAt a / 2 : Nat) : Rat) = H
+  field_simp
+
+/-- **Mesh-level round trip.**  `mesh.fftn().ifftn()` succeeds and is the mesh of the original
+counts, cell sizes, dimension names and units, centred at the origin. -/
+theorem ifftn_fftn_mesh (m : Mesh) (hm : m.Inv) :
+    ∃ k b, meshFftn m false = .ok k ∧ meshIfftn k false none = .ok b ∧
+      b.n = m.n ∧ b.region.dims = m.region.dims ∧ b.region.units = m.region.units ∧
+      b.region.tol = m.region.tol ∧
+      ∀ a, a < m.ndim → b.cellAt a = m.cellAt a ∧ b.region.lo a + b.region.hi a = 0 ∧
+        b.region.hi a - b.region.lo a = m.region.edge a :=
+  ⟨kMesh m false, originMesh m m.n, meshFftn_ok m false hm, mesh_roundtrip_full m hm, rfl, rfl, rfl, rfl,
+    fun a ha => ⟨originMesh_cellAt m a ha, originMesh_centre m m.n a ha, by
+      simp only [originMesh, Region.lo, Region.hi]
+      rw [getD_tab _ _ _ _ ha, getD_tab _ _ _ _ ha]; ring⟩⟩
+
+/-- The same for the real transform when the original counts are supplied:
+`mesh.fftn(rfft=True).ifftn(rfft=True, shape=mesh.n)` recovers even and odd last counts alike. -/
+theorem irfftn_rfftn_mesh (m : Mesh) (hm : m.Inv) :
+    ∃ k b, meshFftn m true = .ok k ∧ meshIfftn k true (some m.n) = .ok b ∧
+      b.n = m.n ∧ b.region.dims = m.region.dims ∧ b.region.units = m.region.units ∧
+      ∀ a, a < m.ndim → b.cellAt a = m.cellAt a ∧ b.region.lo a + b.region.hi a = 0 :=
+  ⟨kMesh m true, originMesh m m.n, meshFftn_ok m true hm, mesh_roundtrip_half_shape m hm, rfl, rfl, rfl,
+    fun a ha => ⟨originMesh_cellAt m a ha, originMesh_centre m m.n a ha⟩⟩
+
+/-- Without the counts the real inverse assumes an even last count: it recovers the mesh when
+the last count is even or 1, and returns `n_last - 1` cells along the last axis when it is odd
+and larger (which is why `shape` is needed to recover odd sizes); the extent is the original
+one in every case. -/
+theorem irfftn_mesh_default (m : Mesh) (hm : m.Inv) :
+    ∃ k b, meshFftn m true = .ok k ∧ meshIfftn k true none = .ok b ∧
+      b.n = (if m.nAt (m.ndim - 1) = 1 then m.n else setAt m.n (m.ndim - 1) (m.nAt (m.ndim - 1) / 2 * 2)) ∧
+      (m.nAt (m.ndim - 1) % 2 = 0 → b.n = m.n) ∧
+      ∀ a, a < m.ndim → b.region.lo a + b.region.hi a = 0 ∧ b.region.hi a - b.region.lo a = m.region.edge a := by
+  refine ⟨kMesh m true, _, meshFftn_ok m true hm, mesh_roundtrip_half_none m hm, rfl, ?_, ?_⟩
+  · intro heven
+    show (if m.nAt (m.ndim - 1) = 1 then m.n else setAt m.n (m.ndim - 1) (m.nAt (m.ndim - 1) / 2 * 2)) = m.n
+    have h1 : ¬ m.nAt (m.ndim - 1) = 1 := by omega
+    rw [if_neg h1]
+    have e : m.nAt (m.ndim - 1) / 2 * 2 = m.nAt (m.ndim - 1) := by omega
+    rw [e]
+    exact setAt_getD_self m.n (m.ndim - 1)
+  · intro a ha
+    refine ⟨originMesh_centre m _ a ha, ?_⟩
+    simp only [originMesh, Region.lo, Region.hi]
+    rw [getD_tab _ _ _ _ ha, getD_tab _ _ _ _ ha]; ring
+
+/-- Shapes that do not match the k-mesh are rejected: wrong number of entries, a leading
+entry different from the k-mesh's count, or a last entry `s` with `s // 2 + 1 ≠ n_last`. -/
+theorem ifftn_shape_checked (k : Mesh) (rfft : Bool) (s : List Nat)
+    (h : s.length ≠ k.ndim ∨ (∃ a, a < k.ndim - 1 ∧ s.getD a 0 ≠ k.nAt a) ∨
+         s.getD (k.ndim - 1) 0 / 2 + 1 ≠ k.nAt (k.ndim - 1)) :
+    meshIfftn k rfft (some s) = .error .value :=
+  meshIfftn_err_of_shape k rfft s .value (ifftShape_rejects k rfft s h)
+
+/-! ## (b) the transforms -/
+
+section ring
+variable {R : Type} [CommRing R]
+
+/-- `fftshift` and `ifftshift` (index rotations by `⌊n/2⌋` and `⌈n/2⌉`) are mutually inverse
+on every index of every shape — in particular for odd counts, where they differ. -/
+theorem shift_ishift_inverse (ns m : List Nat) (h : inRange ns m = true) :
+    fshift ns (ishift ns m) = m ∧ ishift ns (fshift ns m) = m :=
+  ⟨fshift_ishift ns m h, ishift_fshift ns m h⟩
+
+/-- `Field.fftn` succeeds on every valid field; the result lives on `mesh.fftn()`, keeps the
+component count and the unit, and holds `fftshift(fftn(array))`. -/
+theorem fftn_total (ρs : List (Root R)) (f : CF R) (hf : CFInv f) :
+    ∃ g, fftn ρs f = .ok g ∧ meshFftn f.mesh false = .ok g.mesh ∧ g.nvdim = f.nvdim ∧ g.unit = f.unit ∧
+      g.data = fftnArr ρs f.nvdim f.data :=
+  ⟨_, fftn_ok ρs f hf, meshFftn_ok f.mesh false hf.mesh, rfl, rfl, rfl⟩
+
+/-- **The forward transform is the DFT at the k-cell's frequency.**  Every component of every
+cell `m` of `Field.fftn` holds the sum over all real-space cells `r` of
+`value(r) · Π_a w_a^(m_a·r_a) · wi_a^(⌊n_a/2⌋·r_a)`, i.e. `value(r)·exp(-2πi k·r)` with `k` the
+centre of k-cell `m` and `r` counted from the first cell (`phase_is_k_dot_r`). -/
+theorem fftn_is_dft (ρs : List (Root R)) (f g : CF R) (h : fftn ρs f = .ok g)
+    (hρ : Roots f.data.shape ρs) (m : List Nat) (hm : inRange f.data.shape m = true)
+    (c : Nat) (hc : c < f.nvdim) :
+    compA g.data c m = sumBox f.data.shape fun r => compA f.data c r * phase ρs f.data.shape m r := by
+  unfold fftn at h
+  split at h
+  · cases h
+  · have hd := (finish_ok h).2.1
+    rw [hd, fftnArr_get _ _ _ _ _ hc, dftN_eq_sumBox]
+    apply sumBox_congr
+    intro r _
+    rw [twProd_fshift ρs f.data.shape hρ m r hm]
+
+/-- **The zero-frequency cell holds the plain sum of the field**: cell `(⌊n_a/2⌋)_a` of
+`Field.fftn`, the one centred at `k = 0` (`kcell_zero_frequency`). -/
+theorem dc_is_sum (ρs : List (Root R)) (f g : CF R) (h : fftn ρs f = .ok g)
+    (hpos : ∀ n ∈ f.data.shape, 0 < n) (c : Nat) (hc : c < f.nvdim) :
+    compA g.data c (f.data.shape.map (· / 2)) = sumBox f.data.shape (compA f.data c) := by
+  unfold fftn at h
+  split at h
+  · cases h
+  · have hd := (finish_ok h).2.1
+    rw [hd, fftnArr_get _ _ _ _ _ hc]
+    exact dftN_zero ρs _ _ _ (fshift_centre f.data.shape hpos)
+
+/-- the same for the real transform, where the zero frequency sits at index 0 of the last
+(unshifted) axis and at `⌊n/2⌋` of the others -/
+theorem dc_is_sum_rfft (ρs : List (Root R)) (nv : Nat) (a : NDA (List R)) (hpos : ∀ n ∈ a.shape, 0 < n)
+    (c : Nat) (hc : c < nv) :
+    compA (rfftnArr ρs nv a) c (zeroIdxR a.shape) = sumBox a.shape (compA a c) := by
+  rw [rfftnArr_get _ _ _ _ _ hc]
+  exact dftN_zero ρs _ _ _ (fshiftR_zeroIdxR a.shape hpos)
+
+/-- `Field.rfftn` succeeds on every valid field; the result lives on `mesh.fftn(rfft=True)` -/
+theorem rfftn_total (ρs : List (Root R)) (f : CF R) (hf : CFInv f) :
+    ∃ g, rfftn ρs f = .ok g ∧ meshFftn f.mesh true = .ok g.mesh ∧ g.nvdim = f.nvdim ∧ g.unit = f.unit ∧
+      g.data = rfftnArr ρs f.nvdim f.data ∧ g.data.shape = halfShape f.mesh.n :=
+  ⟨_, rfftn_ok ρs f hf, meshFftn_ok f.mesh true hf.mesh, rfl, rfl, rfl, by
+    show halfShape f.data.shape = halfShape f.mesh.n
+    rw [hf.shape]⟩
+
+/-- **Linearity**: the transform of `α·a + β·b` (cell by cell, component by component) is
+`α·F(a) + β·F(b)`, for arrays of the same shape. -/
+theorem fft_linear (ρs : List (Root R)) (nv : Nat) (a b ab : NDA (List R)) (α β : R)
+    (hs : b.shape = a.shape) (hs' : ab.shape = a.shape)
+    (hab : ∀ i c, compA ab c i = α * compA a c i + β * compA b c i)
+    (m : List Nat) (c : Nat) (hc : c < nv) :
+    compA (fftnArr ρs nv ab) c m = α * compA (fftnArr ρs nv a) c m + β * compA (fftnArr ρs nv b) c m := by
+  rw [fftnArr_get _ _ _ _ _ hc, fftnArr_get _ _ _ _ _ hc, fftnArr_get _ _ _ _ _ hc, hs, hs',
+    ← dftN_linear]
+  congr 1
+  funext i
+  exact hab i c
+
+/-- the inverse transform is linear too -/
+theorem ifft_linear (ρs : List (Root R)) (ns : List Nat) (F G : List Nat → R) (α β : R) (j : List Nat) :
+    idftN ρs ns (fun i => α * F i + β * G i) j = α * idftN ρs ns F j + β * idftN ρs ns G j := by
+  induction ns generalizing ρs F G j with
+  | nil => simp [idftN]
+  | cons n ns ih =>
+    rw [idftN_cons, idftN_cons, idftN_cons, ← ih]
+    congr 1
+    funext ms
+    rw [← sumN_mul_left, ← sumN_mul_left, ← sumN_mul_left, ← sumN_mul_left, ← sumN_mul_left, ← sumN_add]
+    apply sumN_congr
+    intro k _
+    ring
+
+/-- **Transforms act per component**: component `c` of the transform of a `nv`-component array
+is the transform of component `c` alone. -/
+theorem fft_componentwise (ρs : List (Root R)) (nv : Nat) (a : NDA (List R)) (c : Nat) (hc : c < nv)
+    (m : List Nat) :
+    compA (fftnArr ρs nv a) c m = compA (fftnArr ρs 1 ⟨a.shape, fun i => [compA a c i]⟩) 0 m := by
+  rw [fftnArr_get _ _ _ _ _ hc, fftnArr_get _ _ _ _ _ (by omega : 0 < 1)]
+  rfl
+
+/-- **Inverse ∘ forward = identity** for the full transform, from the orthogonality
+hypothesis: on every valid field `f.fftn().ifftn()` succeeds, has the original counts, cell
+size, names and units on the mesh centred at the origin, the original component count, unit,
+labels and mapping, and the original value in every cell and component. -/
+theorem ifftn_fftn (ρs : List (Root R)) (f : CF R) (hf : CFInv f) (hρ : Roots f.mesh.n ρs) :
+    ∃ g h, fftn ρs f = .ok g ∧ ifftn ρs g = .ok h ∧
+      h.mesh = originMesh f.mesh f.mesh.n ∧ h.nvdim = f.nvdim ∧ h.unit = f.unit ∧
+      h.vdims = f.vdims ∧ h.vmap = f.vmap ∧
+      ∀ j, inRange f.mesh.n j = true → ∀ c, c < f.nvdim → compA h.data c j = compA f.data c j := by
+  refine ⟨_, _, fftn_ok ρs f hf, ifftn_fftn_ok ρs f hf, rfl, rfl, rfl, rfl, rfl, ?_⟩
+  intro j hj c hc
+  rw [← hf.shape] at hj hρ
+  exact ifftn_fftn_arr ρs f.nvdim f.data hρ j hj c hc
+
+/-- **Real round trip**: on every valid field with conj-fixed ("real") data,
+`f.rfftn().irfftn(shape=f.mesh.n)` succeeds and restores the same state and every value —
+even and odd last counts alike, since the original last count is supplied. -/
+theorem irfftn_rfftn (conj : R → R) (hc : IsConj conj) (ρs : List (Root R)) (f : CF R) (hf : CFInv f)
+    (hρ : Roots f.mesh.n ρs) (hcr : ConjRoots conj f.mesh.n ρs)
+    (hreal : ∀ i c, conj (compA f.data c i) = compA f.data c i) :
+    ∃ g h, rfftn ρs f = .ok g ∧ irfftn conj ρs g (some f.mesh.n) = .ok h ∧
+      meshFftn f.mesh true = .ok g.mesh ∧
+      h.mesh = originMesh f.mesh f.mesh.n ∧ h.nvdim = f.nvdim ∧ h.unit = f.unit ∧
+      h.vdims = f.vdims ∧ h.vmap = f.vmap ∧
+      ∀ j, inRange f.mesh.n j = true → ∀ c, c < f.nvdim → compA h.data c j = compA f.data c j := by
+  refine ⟨_, _, rfftn_ok ρs f hf, irfftn_rfftn_ok conj ρs f hf, meshFftn_ok f.mesh true hf.mesh,
+    rfl, rfl, rfl, rfl, rfl, ?_⟩
+  intro j hj c hcv
+  show compA (irfftnArr conj ρs f.nvdim f.mesh.n (rfftnArr ρs f.nvdim f.data)) c j = _
+  rw [← hf.shape] at hj hρ hcr ⊢
+  exact irfftn_rfftn_arr conj hc ρs f.nvdim f.data hρ hcr hreal j hj c hcv
+
+/-- **The real transform is the matching half of the full one**: cell `m` of `rfftn` (last
+index `j ≤ ⌊n/2⌋`, unshifted there) holds what `fftn` holds in the cell with the same leading
+indices and last index `(j + ⌊n/2⌋) mod n` — the cell of the same DFT frequency. -/
+theorem rfftn_half (ρs : List (Root R)) (f gr g : CF R) (hr : rfftn ρs f = .ok gr) (hg : fftn ρs f = .ok g)
+    (hpos : ∀ n ∈ f.data.shape, 0 < n) (m : List Nat) (hm : inRange (halfShape f.data.shape) m = true)
+    (c : Nat) (hc : c < f.nvdim) :
+    compA gr.data c m = compA g.data c (lastShift f.data.shape m) := by
+  unfold rfftn at hr
+  unfold fftn at hg
+  split at hr
+  · cases hr
+  · split at hg
+    · cases hg
+    · rw [(finish_ok hr).2.1, (finish_ok hg).2.1]
+      exact rfftn_half_arr ρs f.nvdim f.data hpos m hm c hc
+
+/-- **Labels and mapping, forward**: labels get the prefix `ft_`; label `ft_v` is mapped to
+`k_d` exactly when `v` was mapped to `d` (for an arbitrary mapping); component count and unit
+are kept.  The same holds for `rfftn` (same `_fftn`). -/
+theorem fft_labels (ρs : List (Root R)) (f g : CF R) (h : fftn ρs f = .ok g) (vs : List String)
+    (hv : f.vdims = some vs) (hne : vs ≠ []) :
+    g.vdims = some (vs.map ("ft_" ++ ·)) ∧ g.nvdim = f.nvdim ∧ g.unit = f.unit ∧
+    ∀ v ∈ vs, dictGet g.vmap ("ft_" ++ v) = (dictGet f.vmap v).map ("k_" ++ ·) := by
+  unfold fftn at h
+  split at h
+  · cases h
+  · obtain ⟨h1, h2⟩ := finish_labels_fwd vs hv hne h
+    have h3 := finish_ok h
+    refine ⟨h1, h3.2.2.1, h3.2.2.2.1, ?_⟩
+    intro v hvm
+    rw [h2]
+    exact renameMap_fwd f.vmap vs v hvm
+
+omit [CommRing R] in
+/-- **Labels and mapping, inverse of forward**: stripping undoes prefixing, for arbitrary
+labels and an arbitrary mapping (labels that themselves start with `ft_` lose only the added
+prefix). -/
+theorem fft_labels_roundtrip (f : CF R) (mesh1 mesh2 : Mesh) (d1 d2 : NDA (List R)) (g h : CF R)
+    (vs : List String) (hv : f.vdims = some vs) (hne : vs ≠ [])
+    (h1 : finish f mesh1 d1 false = .ok g) (h2 : finish g mesh2 d2 true = .ok h) :
+    h.vdims = some vs ∧ ∀ v ∈ vs, dictGet h.vmap v = dictGet f.vmap v := by
+  obtain ⟨g1, g2⟩ := finish_labels_fwd vs hv hne h1
+  obtain ⟨k1, k2⟩ := finish_labels_inv (vs.map ("ft_" ++ ·)) g1 (by simpa using hne) h2
+  rw [labels_roundtrip] at k1
+  refine ⟨k1, ?_⟩
+  intro v hvm
+  rw [k2, g2]
+  exact renameMap_roundtrip f.vmap vs v hvm
+
+end ring
+
+/-- the matching cells have the same centre: k-cell `j` of the last axis of the real transform
+and k-cell `j + ⌊n/2⌋` of the full transform (an existing cell for `j < ⌈n/2⌉`; for even `n`
+the remaining cell `j = n/2`, centred at `+1/(2·cell)`, matches the full transform's cell 0
+at the aliased frequency `-1/(2·cell)`, one period `1/cell` lower) -/
+theorem rfftn_half_centres (m : Mesh) (hm : m.Inv) (j : Nat) :
+    (kMesh m true).centreAx (m.ndim - 1) (j : Int)
+      = (kMesh m false).centreAx (m.ndim - 1) ((j + m.nAt (m.ndim - 1) / 2 : Nat) : Int) := by
+  have hl := last_lt m hm
+  rw [kcentre_half m true hm _ hl (flag_last m), kcentre_full m false hm _ hl (by simp)]
+  simp only [Nat.cast_add, Int.cast_add, Int.cast_natCast]
+  generalize ((m.nAt (m.ndim - 1) / 2 : Nat) : Rat) = H
+  ring
+
+/-- **The hypotheses are satisfiable for every shape**: in ℂ, `w = exp(-2πi/n)`,
+`wi = exp(2πi/n)`, `ninv = 1/n` form a root in the sense of `IsRoot` for every `n ≥ 1`, and
+complex conjugation is a ring endomorphism inverting every such root — so `fftn_is_dft`,
+`ifftn_fftn`, `irfftn_rfftn` apply to complex-valued fields on every mesh. -/
+theorem complex_roots_exist (ns : List Nat) (h : ∀ n ∈ ns, 0 < n) :
+    Roots ns (ns.map cRoot) ∧ IsConj (starRingEnd ℂ) ∧ ConjRoots (starRingEnd ℂ) ns (ns.map cRoot) :=
+  ⟨cRoots ns h, conj_isConj, cConjRoots ns⟩
+
+/-! ## Non-vacuity -/
+
+/-- the mesh hypotheses of the geometry theorems hold for it, so `Mesh.fftn` succeeds on it for
+both kinds and every theorem of part (a) applies -/
+example : ∃ k, meshFftn exMesh true = .ok k ∧ k.nAt 2 = 2 ∧ k.nAt 0 = 3 := by
+  refine ⟨kMesh exMesh true, (fftn_mesh exMesh true exMesh_inv).1, ?_, ?_⟩
+  · exact (kcell_centres_rfft exMesh _ (fftn_mesh exMesh true exMesh_inv).1 exMesh_inv).1
+  · exact ((kcell_centres_rfft exMesh _ (fftn_mesh exMesh true exMesh_inv).1 exMesh_inv).2.2 0 (by decide)).1
+
+/-- a valid labelled 3-component field on that mesh: `CFInv` is satisfiable with a non-empty
+mapping, so `fftn_total`, `ifftn_fftn`, `irfftn_rfftn` are not vacuous -/
+example : CFInv ({ mesh := exMesh, nvdim := 3, data := ⟨[3, 1, 2], fun i => [(i.getD 0 0 : ℂ), 1, 2]⟩,
+                   vdims := some ["a", "b", "c"], vmap := [("a", "x"), ("b", "y"), ("c", "z")],
+                   unit := some "T" } : CF ℂ) :=
+  ⟨exMesh_inv, rfl, by decide, Or.inr ⟨["a", "b", "c"], rfl, by simp, rfl, by decide +kernel, Or.inr rfl⟩⟩
+
+/-- over ℚ, `-1` is a root for `n = 2` (and `1` for `n = 1`): `Roots` is satisfiable without ℂ -/
+example : Roots [2, 1] [(⟨-1, -1, 1/2⟩ : Root ℚ), ⟨1, 1, 1⟩] := by
+  refine ⟨⟨by norm_num, by norm_num, by norm_num, ?_⟩, ⟨by norm_num, by norm_num, by norm_num, ?_⟩, trivial⟩
+  · intro k hk hk2
+    have : k = 1 := by omega
+    subst this
+    simp [sumN]
+  · intro k hk hk2; omega
 
 end DFV.C11
